@@ -227,7 +227,13 @@ class Fn:
                 elif rv['k'] == 'use' and rv['a'].get('l') in k and not rv['a'].get('p'):
                     k[l] = k[rv['a']['l']]
                 elif rv['k'] == 'agg' and rv.get('ak') == 'adt' and rv.get('vidx') is not None and _PS_ENUM.match(rv.get('adt') or ''):
-                    k[l] = ('V', rv['adt'], rv['vidx'])
+                    k[l] = ('V', rv['adt'], rv['vidx']) if rv.get('ops') else ('V', rv['adt'], rv['vidx'], 'unit')
+                elif rv['k'] == 'agg' and rv.get('ak') == 'adt' and rv.get('vidx') is not None and not rv.get('ops') \
+                        and (self.crate.adts.get(norm(rv.get('adt') or '')) or {}).get('kind') == 'enum':
+                    # a field-less variant of one of the crate's own enums (`state != TaskState::Completed`)
+                    k[l] = ('V', rv['adt'], rv['vidx'], 'unit')
+                elif rv['k'] == 'ref' and not rv['a'].get('p') and isinstance(k.get(rv['a'].get('l')), tuple) and k[rv['a']['l']][0] == 'V':
+                    k[l] = ('&',) + k[rv['a']['l']]
                 elif rv['k'] == 'discr' and not rv['a'].get('p') and isinstance(k.get(rv['a'].get('l')), tuple):
                     k[l] = k[rv['a']['l']][2]
                 else:
@@ -245,6 +251,8 @@ class Fn:
                             val = ('V', 'core::ops::control_flow::ControlFlow', 0 if src[2] == 0 else 1)
                         elif src[1] == 'core::option::Option':
                             val = ('V', 'core::ops::control_flow::ControlFlow', 0 if src[2] == 1 else 1)
+                if val is None and len(t.get('args') or []) == 2 and call_matches(t, ['core::cmp::PartialEq::eq', 'core::cmp::PartialEq::ne']):
+                    val = self._ps_enum_eq(t, k)
                 if val is not None:
                     k[t['d']['l']] = val
                 else:
@@ -266,6 +274,32 @@ class Fn:
                     continue
                 work.append((s2, nk))
         return out
+
+    def _ps_enum_eq(self, t, k):
+        """`a == b` / `a != b` on two references to enum values of known variant, compared by the derived (structural) PartialEq:
+        different variants are unequal; the same field-less variant is equal"""
+        vs = []
+        for a in t['args']:
+            v = k.get(a.get('l')) if not a.get('p') else None
+            if not (isinstance(v, tuple) and v[0] == '&'):
+                return None
+            vs.append(v[1:])
+        a, b = vs
+        if a[1] != b[1]:
+            return None
+        adt = norm(a[1])
+        if not _PS_ENUM.match(adt):
+            eqs = self.crate.find(trait='core::cmp::PartialEq', self_adt=adt, name='eq')
+            if len(eqs) != 1 or not eqs[0].assoc.get('derived'):
+                return None
+        if a[2] != b[2]:
+            same = False
+        elif len(a) > 3 and len(b) > 3:
+            same = True
+        else:
+            return None
+        ne = last_seg(norm((t.get('callee') or ''))) == 'ne'
+        return (not same) if ne else same
 
     def reachable_after(self, b, removed_blocks=(), removed_edges=()):
         """blocks reachable strictly after block b's terminator"""
@@ -749,6 +783,21 @@ class Crate:
             self.inlined_helpers = {}
         self.built = [Fn(self, f, 'built') for f in j['built']]
         self.elab = [Fn(self, f, 'elab') for f in j['elab']]
+        # calls through a function pointer whose only possible value is one function item (`unwrap(x)` where the spliced helper's
+        # parameter `unwrap` was given `KeyValueResult::unwrap_get`) are calls of that function
+        for f in self.built + self.elab:
+            for blk in f.blocks:
+                t = blk['t']
+                if t['k'] == 'call' and not t.get('callee') and isinstance(t.get('f'), dict) and 'l' in t['f']:
+                    try:
+                        os_ = origins(f, t['f'], through_casts=True)
+                    except RecursionError:
+                        continue
+                    items = set(o.fn for o in os_ if o.kind == 'const' and getattr(o, 'fn', None))
+                    if len(items) == 1 and all(o.kind == 'const' and getattr(o, 'fn', None) for o in os_):
+                        t['callee'] = next(iter(items))
+                        t['resolved'] = t['callee']
+                        t['devirt'] = True
         # initialisers of named consts / statics (MIR bodies, not part of `built`)
         self.consts = {norm(f['path']): Fn(self, f, 'built') for f in (j.get('consts') or [])}
         self.items = j['items']
